@@ -205,7 +205,7 @@ func (o *oracle) checkDuplicateNames(expr hcl.Expression, v cty.Value, vd hcl.Di
 	o.rep.Hist("modes:compared")
 	// (RawEquals: cty's structural identity - types, nulls, unknowns, marks, exact numbers;
 	// the values are only rendered when they differ, huge numbers are slow to print)
-	if !v.RawEquals(v2) || summaries(vd) != summaries(d2) {
+	if !rawEqualsFast(v, v2) || summaries(vd) != summaries(d2) {
 		a, b := hv.DumpVal(v), hv.DumpVal(v2)
 		kind := "literal-vs-expression-mode-differs"
 		if e.nfOnly && countSummary(d2, dupSummary) == e.diags && got < e.diags {
@@ -514,4 +514,55 @@ var c13CorpusDupNames = []string{
 	"[{\"\\ud834\\udd5e\": 1, \"\U0001d157\U0001d165\": 2}]",    // surrogate-pair escape of an excluded composite vs raw 4-byte decomposition
 	`{"\uac01": 1, "\u1100\u1161\u11a8": 2, "\uac00\u11a8": 3}`, // three spellings: two diagnostics
 	`{"\ufb01": 1, "fi": 2, "\u00b5": 3, "\u03bc": 4}`,          // compatibility-equivalent only: four attributes, no error
+}
+
+// rawEqualsFast is Value.RawEquals with numbers compared through big.Float.Cmp: cty compares
+// numbers by their full decimal text, which takes minutes for an exponent like 1e99999999 read
+// from a mutated input.
+func rawEqualsFast(a, b cty.Value) bool {
+	if !a.Type().Equals(b.Type()) || a.IsKnown() != b.IsKnown() || !a.HasSameMarks(b) {
+		return false
+	}
+	a, _ = a.Unmark()
+	b, _ = b.Unmark()
+	if !a.IsKnown() {
+		return true
+	}
+	if a.IsNull() || b.IsNull() {
+		return a.IsNull() == b.IsNull()
+	}
+	ty := a.Type()
+	switch {
+	case ty == cty.Number:
+		return a.AsBigFloat().Cmp(b.AsBigFloat()) == 0
+	case ty.IsPrimitiveType():
+		return a.RawEquals(b)
+	case ty.IsListType() || ty.IsTupleType() || ty.IsSetType():
+		if a.LengthInt() != b.LengthInt() {
+			return false
+		}
+		ai, bi := a.ElementIterator(), b.ElementIterator()
+		for ai.Next() && bi.Next() {
+			_, av := ai.Element()
+			_, bv := bi.Element()
+			if !rawEqualsFast(av, bv) {
+				return false
+			}
+		}
+		return true
+	case ty.IsMapType() || ty.IsObjectType():
+		if a.LengthInt() != b.LengthInt() {
+			return false
+		}
+		ai, bi := a.ElementIterator(), b.ElementIterator()
+		for ai.Next() && bi.Next() {
+			ak, av := ai.Element()
+			bk, bv := bi.Element()
+			if !ak.RawEquals(bk) || !rawEqualsFast(av, bv) {
+				return false
+			}
+		}
+		return true
+	}
+	return a.RawEquals(b)
 }
